@@ -17,6 +17,7 @@ Queries work on the node objects of the body that was traversed (identity), not 
 import re
 from lib.facts import is_node, walk
 
+_MUTATORS = {"push", "push_str", "push_back", "push_front", "insert", "insert_str", "extend", "extend_from_slice", "append", "write_str", "write_char"}
 _COPY_METHODS = {"clone", "to_owned", "borrow", "borrow_mut", "as_ref", "as_mut", "deref", "deref_mut"}
 _IDENT = re.compile(r"(?<![A-Za-z0-9_\"'.])[A-Za-z_][A-Za-z0-9_]*(?![A-Za-z0-9_]*\s*(?:!|::|\())")
 
@@ -117,6 +118,14 @@ class Prov:
         elif t == "pref":
             self._bind(pat[2], roots, exact)
         elif t == "ptuple":
+            tup = init
+            while is_node(tup) and tup[0] == "paren":
+                tup = tup[1]
+            if exact is None and is_node(tup) and tup[0] == "tuple" and len(tup[1]) == len(pat[1]) and not any(is_node(x) and x[0] == "prest" for x in pat[1]):
+                # `match (a, b) { (p, q) => .. }` / `let (p, q) = (a, b);`: each sub-pattern is bound to its own element, not to the union
+                for sub, el in zip(pat[1], tup[1]):
+                    self._bind(sub, self.roots(el), self._exact_of(el), el)
+                return
             for i, sub in enumerate(pat[1]):
                 if is_node(sub) and sub[0] == "prest":
                     exact = None          # positions after `..` are unknown
@@ -279,9 +288,21 @@ class Prov:
             # a closure passed to a method of a value iterates / maps that value: its parameters are computed from the receiver
             old = getattr(self, "_closure_arg", frozenset())
             self._closure_arg = r
+            ar = frozenset()
             for a in e[4]:
-                r |= self._expr(a)
+                ar |= self._expr(a)
+            r |= ar
             self._closure_arg = old
+            # `buf.push(x)`, `buf.push_str(s)`, `v.extend(it)` ...: the receiver local now also holds what the arguments were computed from
+            recv = e[1]
+            while is_node(recv) and (recv[0] == "paren" or recv[0] == "ref" or (recv[0] == "un" and recv[1] == "*")):
+                recv = recv[1] if recv[0] == "paren" else recv[2]
+            if e[2] in _MUTATORS and ar and is_node(recv) and recv[0] == "path" and isinstance(recv[1], str):
+                for sc in reversed(self.scopes):
+                    if recv[1] in sc:
+                        o = sc[recv[1]]
+                        sc[recv[1]] = (o[0] | ar, o[1], None, o[3] if len(o) > 3 else None)
+                        break
             return r
         if t == "assign" or (t == "bin" and isinstance(e[1], str) and e[1].endswith("=") and e[1] not in ("==", "<=", ">=", "!=")):
             lhs, rhs = (e[1], e[2]) if t == "assign" else (e[2], e[3])
